@@ -6,6 +6,7 @@ CONSTANTS
   ClientOps = {"cancel", "release", "frelease"}
   RestartIfIdKnown = FALSE
   IdStoredLate = FALSE
+  RestartSkipsComplete = FALSE
   StdoutFromZero = FALSE
   ReleaseSkipsRemote = FALSE
   RTraceFile = "rw_trace.ndjson"
@@ -14,5 +15,6 @@ INVARIANTS
   NeverContradictsE
   SubmittedOnce
   BoundOnceShipped
+  MirrorNeverAbandoned
 POSTCONDITION RTraceAccepted
 CHECK_DEADLOCK FALSE
